@@ -231,7 +231,7 @@ func init() {
 		registerExtras(a.Reg)
 		reg := currentReg()
 		t := NewTracer(a.Out)
-		cc := Conc{a.Rand()}
+		cc := Conc{r: a.Rand()}
 		setCBORProbes(cc, d)
 		b := 0
 		skipped := 0
@@ -314,6 +314,13 @@ func init() {
 				for k := 0; k < 4; k++ {
 					emit("order:"+kind, shuffle(bases[kind]), false)
 				}
+				// the same token in non-preferred serialisation: every head (keys, lengths, integers) 1, 2, 4, 8 bytes wide
+				for _, mw := range []int{1, 2, 4, 8} {
+					cc.minW = mw
+					emit(fmt.Sprintf("width%d:%s", mw, kind), bases[kind], false)
+					emit(fmt.Sprintf("width%d:%s", mw, kind), shuffle(bases[kind]), false)
+				}
+				cc.minW = 0
 				rev := append([]tokEntry{}, bases[kind]...)
 				for i, j := 0, len(rev)-1; i < j; i, j = i+1, j-1 {
 					rev[i], rev[j] = rev[j], rev[i]
@@ -353,6 +360,14 @@ func init() {
 				}
 				for _, x := range w.Selector {
 					emit("selector:"+kind, replace(bases[kind], 265, descFromAny(x)), false)
+					// ... and with the selector's key (and everything else) in a wider encoding
+					cc.minW = []int{2, 4, 8}[cc.r.Intn(3)]
+					emit("selector-wide:"+kind, replace(bases[kind], 265, descFromAny(x)), false)
+					// ... and on the other profile's claims (a token is validated under the profile it declares)
+					if ob := otherBase(d, p, kind); ob != nil && cc.r.Intn(2) == 0 {
+						emit("selector-wide-cross:"+kind, replace(ob, 265, descFromAny(x)), false)
+					}
+					cc.minW = 0
 				}
 			}
 			// pairs on the full base
@@ -445,7 +460,11 @@ func init() {
 				if cc.r.Intn(2) == 0 {
 					e = shuffle(e)
 				}
+				if cc.r.Intn(8) == 0 {
+					cc.minW = []int{1, 2, 4, 8}[cc.r.Intn(4)]
+				}
 				emit("random", e, false)
+				cc.minW = 0
 			}
 		}
 		t.Close(map[string]any{"by_source": bysrc, "skipped": skipped})
@@ -471,6 +490,18 @@ type decodeJSONEv struct {
 }
 
 var jsonProbes []probeTok
+
+// otherBase: the base entries of the other built-in profile (without its own selector entry)
+func otherBase(d *domains, p, kind string) []tokEntry {
+	other := map[string]string{"P1": "P2", "P2": "P1"}[p]
+	o := []tokEntry{}
+	for _, x := range baseEntries(d.base(other, kind)) {
+		if !(x.key.D == "int" && x.key.V == 265) {
+			o = append(o, x)
+		}
+	}
+	return o
+}
 
 func setJSONProbes(cc Conc, d *domains) {
 	jsonProbes = nil
@@ -592,7 +623,7 @@ func init() {
 		registerExtras(a.Reg)
 		reg := currentReg()
 		t := NewTracer(a.Out)
-		cc := Conc{a.Rand()}
+		cc := Conc{r: a.Rand()}
 		setJSONProbes(cc, d)
 		b := 0
 		emit := func(src string, doc []byte) {
